@@ -268,7 +268,10 @@ func c20Envelope(cfg Config, r *Result, model *c20Model, keys []c20Keys) {
 	nSweep := cfg.N(3, 20)
 	sweepLens := []int{1, 60, 150, 2, 5, 17, 40, 100, 200, 3, 64, 150, 250, 8, 30, 80, 120, 1, 300, 50}
 	for idx := 0; idx < nSweep; idx++ {
-		ki := idx % len(keys)
+		ki := 0 // mostly the 1024-bit key (an RSA-2048 operation costs twice as much), every fifth value the 2048-bit key
+		if idx%5 == 1 {
+			ki = 1 % len(keys)
+		}
 		text := c20RandText(cfg.Rng, sweepLens[idx%len(sweepLens)])
 		sealed, err := learn.Encrypt(keys[ki].KP.Public, text)
 		raw, derr := base64.StdEncoding.DecodeString(sealed)
@@ -277,7 +280,7 @@ func c20Envelope(cfg Config, r *Result, model *c20Model, keys []c20Keys) {
 			continue
 		}
 		all := cfg.Tier == "thorough" || idx == 0
-		c20Sweep(cfg, r, model, keys, c20SealedValue{Key: ki, Text: text, Sealed: sealed, Raw: raw}, all)
+		c20Sweep(cfg, r, model, keys, c20SealedValue{Key: ki, Text: text, Sealed: sealed, Raw: raw}, all, cfg.Tier == "thorough" && idx < 6)
 	}
 }
 
@@ -314,7 +317,7 @@ type c20TamperCase struct {
 	want   byte   // model class, 0 = no prediction
 }
 
-func c20Sweep(cfg Config, r *Result, model *c20Model, keys []c20Keys, v c20SealedValue, all bool) {
+func c20Sweep(cfg Config, r *Result, model *c20Model, keys []c20Keys, v c20SealedValue, all, allText bool) {
 	priv := keys[v.Key].KP.Private
 	tStart := time.Now()
 	ans, err := model.Ask(Lst(Sym("sweep"), Str(hex.EncodeToString(v.Raw))).String())
@@ -350,7 +353,7 @@ func c20Sweep(cfg Config, r *Result, model *c20Model, keys []c20Keys, v c20Seale
 	// 3. every single-character corruption of the base64 text, 4. every truncation of it
 	var b64cases []c20TamperCase
 	for pos := 0; pos < len(v.Sealed); pos++ {
-		for _, b := range c20Candidates(v.Sealed[pos], all && cfg.Tier == "thorough") {
+		for _, b := range c20Candidates(v.Sealed[pos], allText) {
 			s2 := []byte(v.Sealed)
 			s2[pos] = b
 			b64cases = append(b64cases, c20TamperCase{string(s2), fmt.Sprintf("char %d := %#02x", pos, b), 0})
@@ -361,7 +364,7 @@ func c20Sweep(cfg Config, r *Result, model *c20Model, keys []c20Keys, v c20Seale
 	}
 	// model prediction for the text-level cases that are valid base64: batch classify (sampled in thorough)
 	stride := 1
-	if all && len(b64cases) > 20000 {
+	if len(b64cases) > 20000 {
 		stride = 8
 	}
 	var batchIdx []int
@@ -462,7 +465,7 @@ func c20Sweep(cfg Config, r *Result, model *c20Model, keys []c20Keys, v c20Seale
 	mode := "8 bit flips per position"
 	if all {
 		mode = "all 255 other values per envelope byte"
-		if cfg.Tier == "thorough" {
+		if allText {
 			mode += " and per base64 character"
 		} else {
 			mode += ", 8 bit flips per base64 character"
@@ -1287,7 +1290,7 @@ func runC20(cfg Config, r *Result) {
 		return
 	}
 	defer os.RemoveAll(dir)
-	r.Rule = "A: Decrypt(Encrypt(t)) = t for random texts (0..20000 bytes, any Unicode, stray bytes) under 2 fresh key pairs (1024, 2048 bit); for 3 (quick) / 20 (thorough) sealed values every single-byte corruption of the envelope bytes and of the base64 text (thorough: all 255 other values per position; quick: all 255 per envelope byte for the first value, otherwise the 8 single-bit flips per position), every truncation of both, and the other private key: result must be rejection or the original text, and the rejection stage must be the one the model predicts under the ideal functionality; model unframe/frame on the real envelopes and on random garbage. " +
+	r.Rule = "A: Decrypt(Encrypt(t)) = t for random texts (0..20000 bytes, any Unicode, stray bytes) under 2 fresh key pairs (1024, 2048 bit); for 3 (quick) / 20 (thorough) sealed values every single-byte corruption of the envelope bytes and of the base64 text (thorough: all 255 other values per envelope byte for all 20 values and per base64 character for the first 6, 8 bit flips per character for the rest; quick: all 255 per envelope byte for the first value, otherwise the 8 single-bit flips per position), every truncation of both, and the other private key: result must be rejection or the original text, and the rejection stage must be the one the model predicts under the ideal functionality; model unframe/frame on the real envelopes and on random garbage. " +
 		"B: random Seal/Unseal/Unseal-with-wrong-key sequences on the real front matter vs the model. " +
 		"C: every non-empty subset of letters a..(one beyond the last choice) x every equal/different assignment for 2..5 choices (multiple choice), every single letter of those and z (single choice), through markdown files whose outputs are produced by running evy, in plain and sealed / wrong key / no key / ignored / verification-none modes; text answers with white-space variants. " +
 		"non-trivial = non-empty text (A), >= 2 operations (B), every question (C); distinct = distinct canonical case"
